@@ -280,3 +280,6 @@ def run(repo: Repo, rep: Report, tier: str) -> None:
     from .c05 import codec_fold_rule
 
     codec_fold_rule(repo, rep, "C16.R6", slots=("_read_0",))
+    from .memo import memo_rule
+
+    memo_rule(repo, rep, "C16.R8")
